@@ -237,7 +237,7 @@ func scopedHist(sc *scopedConn, upto int) []string {
 func init() {
 	register(&Check{
 		ID: "C13", Bubble: true, Run: runC13,
-		Runs:   map[string]int{"quick": 3000, "thorough": 200000},
+		Runs:   map[string]int{"quick": 16000, "thorough": 500000},
 		Rule:   "a case is one run of the full server (with or without a required password) and 2..8 connections that dial, send 2..10 (thorough ..20) requests over {SELECT valid/invalid/missing, AUTH right/wrong, PING, data commands} and close at seeded moments, interleaved at byte-delivery and handler-entry granularity with a swarm-chosen bias towards staying on one connection; inside every handler call conn.Database(), IsAuthrized(), the per-connection sync.Map token and the *redis.Conn identity are compared with that connection's own history; distinct = distinct (shape, order in which handler calls of the connections interleaved) signatures",
 		Real:   []string{"redis.Server accept loop, connection goroutines, SELECT/AUTH executors, redis.Conn state, connection registry"},
 		Stub:   []string{"network: simulated", "handler: recording double (parks at entry)"},
